@@ -137,6 +137,20 @@ func (g *simpleGen) next() *Call {
 	}
 	c.Fh = simpleFh(ino)
 	c.Ino = Clamp(ino)
+	if g.r.Intn(15) == 0 {
+		// a handle of another length: shorter than the inode number it has to hold, or longer with no valid number in it
+		n := []int{0, 1, 4, 7, 8, 9, 24, 64}[g.r.Intn(8)]
+		b := make([]byte, n)
+		for i := 0; i < n && i < 8; i++ {
+			b[i] = byte(ino >> (8 * uint(i)))
+		}
+		if n >= 8 {
+			for i := 0; i < 8; i++ {
+				b[i] = 0 // inode number 0: never valid
+			}
+		}
+		c.Fh, c.Ino = Hex(b), 0
+	}
 	c.I = g.i
 	g.i++
 	return c
